@@ -39,7 +39,7 @@ def build_plan(spec, world):
     rng = random.Random(spec['seed'])
     fl = spec['flavour']
     n = spec['nthreads']
-    kinds = ['closure', 'loop', 'method', 'lambda']
+    kinds = ['closure', 'loop', 'method', 'lambda', 'callee']
     shared = [world.new_group(rng.choice(kinds)) for _ in range(rng.choice([1, 2, 3]))]
     if rng.random() < 0.25:
         shared.append(world.new_group('broken'))
@@ -92,7 +92,7 @@ def build_plan(spec, world):
                 gi = rng.randrange(len(shared)); g = shared[gi]
                 if g.kind == 'siblings':
                     gi = 0; g = shared[0]
-            nf = {'closure': 5, 'loop': 4, 'directive': 2, 'directive_closure': 2, 'method': 3, 'lambda': 2,
+            nf = {'closure': 5, 'callee': 4, 'loop': 4, 'directive': 2, 'directive_closure': 2, 'method': 3, 'lambda': 2,
                   'broken': 2}[g.kind]
             fi = rng.randrange(nf)
             opt = rng.choice(opts)
@@ -113,6 +113,7 @@ def run_history(spec):
         world = W.World(spec['seed'], scratch)
         shared, private, progs = build_plan(spec, world)
         rec = W.Recorder(spec['seed'], spec['yield_p'])
+        world.rec = rec
         verdicts = []
         n = spec['nthreads']
         barrier = threading.Barrier(n)
@@ -228,6 +229,8 @@ def package(spec, rec, verdicts, errors, wall):
             if r.get('bind_err'):
                 verdicts.append({'what': r['bind_err'], 'thread': t, 'index': -1, 'req_pos': j, 'code': r['code'],
                                  'opt': [r['opt'][0], r['opt'][1], r['opt'][2], list(r['opt'][3])]})
+    for b in rec.allow_bad:
+        verdicts.append(dict(b, index=-2, req_pos=-1))
     keys = {}
     for t in range(nthreads):
         for r in rec.requests.get(t, []):
@@ -256,6 +259,7 @@ def run_witness(name):
         malt, api, converter, transpiler, _, _ = W._malt()
         world = W.World(7, scratch)
         rec = W.Recorder(7, 0.0)
+        world.rec = rec
         verdicts, errors = [], []
         rec.register_thread(0)
         extra = {}
@@ -289,6 +293,30 @@ def run_witness(name):
                     req(f, uF, 'converted_call', j=0); req(f, j=1); req(f, W.BASE_OPT, 'convert', j=2)
                 else:
                     req(f, j=0); req(f, uF, 'converted_call', j=1); req(f, uF, 'actual', j=2)
+            elif name in ('status-disabled-first', 'status-enabled-first'):
+                # the same converted_call request under different conversion statuses of the calling context
+                g = world.new_group('closure', {'g': 4, 'c': 1, 'd': 2})
+                fns = g.load()
+                f, helper = fns[0], fns[4]
+                uF = (True, False, True, ())
+                order = ['converted_call@D', 'converted_call@E', 'converted_call@U', 'converted_call', 'convert']
+                if name == 'status-enabled-first':
+                    order = ['converted_call@E', 'converted_call@D', 'converted_call@E', 'converted_call@U']
+                for j, rt in enumerate(order):
+                    req(helper, uF, rt, j=2 * j); req(f, uF, rt, j=2 * j + 1)
+            elif name in ('callee-raw-first', 'callee-plain-first'):
+                # same code object, the callee is an autograph artifact for one function and a plain
+                # convertible function for the other (through a closure cell and through a global)
+                g = world.new_group('callee', {'g': 4, 'c': 1, 'd': 2})
+                fns = g.load()
+                pairs = [(fns[0], fns[1]), (fns[2], fns[3])]
+                j = 0
+                for raw, pl in pairs:
+                    first, second = (raw, pl) if name == 'callee-raw-first' else (pl, raw)
+                    for e in (first, second, first):
+                        req(e, W.BASE_OPT, 'to_graph', j=j); j += 1
+                    req(second, (True, False, True, ()), 'converted_call', j=j); j += 1
+                    req(first, (True, False, True, ()), 'converted_call', j=j); j += 1
             elif name == 'siblings-diverge':
                 g = world.new_group('siblings', {'g': 2, 'c': 1})
                 g.load()
@@ -353,6 +381,7 @@ def run_witness(name):
 WITNESSES = {
     'sig-globals': CLS_SIG, 'sig-closure': CLS_SIG, 'sig-reverse': None,
     'equal-twice': CLS_EQ, 'equal-keyerror': CLS_EQ, 'equal-annotations': CLS_EQ,
+    'status-disabled-first': None, 'status-enabled-first': None, 'callee-raw-first': None, 'callee-plain-first': None,
     'siblings-diverge': None, 'ureq-callee-first': None, 'ureq-direct-first': None, 'ureq-call-then-graph': None, 'ureq-graph-then-call': None,
 }
 
@@ -417,6 +446,9 @@ def analyse(run, res, answer):
     corr = []
     if res.get('not_inst'):
         corr.append('requests %s returned something else than what factory.instantiate(own environment) returned' % res['not_inst'])
+    poisoned = [v for v in res['verdicts'] if v.get('index') == -2]
+    if poisoned:
+        corr.append('%s (function %s, options %s)' % (poisoned[0]['what'], poisoned[0].get('function'), poisoned[0].get('opt')))
     unbound = [v for v in res['verdicts'] if v.get('index') == -1 and 'code' in v and 'thread' in v and 'req_pos' in v
                and not v['what'].startswith('history did not')]
     if unbound:
